@@ -724,6 +724,12 @@ class AST2SCFGTransformer:
         that the target variable ``i`` will escape the scope of the for-loop.
 
         """
+        # The decomposition below assigns None and a sentinel string to the
+        # target, which only works if the target is a plain name.
+        if not isinstance(node.target, ast.Name):
+            raise NotImplementedError(
+                f"For-loop target {ast.unparse(node.target)} not implemented"
+            )
         # Preallocate indices for header, body, else, and exiting blocks.
         head_index = self.block_index
         body_index = self.block_index + 1
